@@ -46,3 +46,13 @@ Theorem C07_storage_proof_path : forall H fuel (L : list bytes) i d, (i < length
   fold_rule H (nth i L d) (Z.of_nat i) sth (sp_prove H fuel L i) = mroot H L /\ sth <= Z.of_nat (length (sp_prove H fuel L i)).
 Proof. exact sp_prove_verifies. Qed.
 Print Assumptions C07_storage_proof_path.
+
+(* soundness for proofs of the honest length: whatever verifies is the true leaf hash with its true siblings, or a
+   collision of the node hash is exhibited (so altering the leaf data or any proof hash is rejected) *)
+Theorem C07_storage_proof_sound_same_length : forall H (L : list bytes) filesize i d x proof, 0 < filesize < 2 ^ 64 ->
+  Z.of_nat (length L) = sp_num_leaves filesize -> (i < length L)%nat ->
+  length proof = length (sp_prove H (length L) L i) ->
+  sp_root_v2 H x (Z.of_nat i) filesize proof = mroot H L ->
+  (x = nth i L d /\ proof = sp_prove H (length L) L i) \/ NodeCollision H.
+Proof. exact storage_proof_v2_sound_same_length. Qed.
+Print Assumptions C07_storage_proof_sound_same_length.
